@@ -275,7 +275,7 @@ namespace RbModel.Gsub
 open RbModel RbModel.Buf
 
 /-- a nested-lookup function that never applies (the examples have no lookup records) -/
-def noRecurse : Ctx → Nat → M (Ctx × Bool) := fun c _ => pure (c, false)
+def spanNoRecurse : Ctx → Nat → M (Ctx × Bool) := fun c _ => pure (c, false)
 
 /-- the observable part of an instrumented match_input result -/
 def MatchInI.view (R : MatchInI) : Bool × Nat × List Rd × Why := (R.r.ok, R.r.endPos, R.reads, R.why)
@@ -284,7 +284,7 @@ def ChainM.view (m : ChainM) : Verdict × Nat × Nat × List Rd := (m.verdict, m
 
 /-- glyphs 5 | 1, mark 10 (GDEF mark; the lookup flag IgnoreMarks skips it), 2, 3; the first glyph is already in the
     out-buffer (shared mode), the cursor is on glyph 1; PRODUCE_UNSAFE_TO_CONCAT requested -/
-def exCtx : Ctx :=
+def spanCtx : Ctx :=
   { buf := { info := [{ gid := 5, mask := 1, cluster := 0, var1 := 2 }, { gid := 1, mask := 1, cluster := 1, var1 := 2 },
                       { gid := 10, mask := 1, cluster := 2, var1 := 8 }, { gid := 2, mask := 1, cluster := 3, var1 := 2 },
                       { gid := 3, mask := 1, cluster := 4, var1 := 2 }],
@@ -295,7 +295,7 @@ def exCtx : Ctx :=
 /-- x(1), ligature 20 (GDEF ligature, lig_id 1, IS_LIG_BASE, 2 components), mark 10 with `var1 = markVar1`
     (`8 + 33 * 65536`: attached to component 1 of that ligature — lig_id 1, lig_comp 1; `8`: unattached), mark 10;
     lookup flag IgnoreLigatures; PRODUCE_UNSAFE_TO_CONCAT requested -/
-def ligCtx (markVar1 : Nat) : Ctx :=
+def spanLigCtx (markVar1 : Nat) : Ctx :=
   { buf := { info := [{ gid := 1, mask := 1, cluster := 0, var1 := 2 },
                       { gid := 20, mask := 1, cluster := 1, var1 := 4 + 50 * 65536 },
                       { gid := 10, mask := 1, cluster := 1, var1 := markVar1 },
@@ -306,7 +306,7 @@ def ligCtx (markVar1 : Nat) : Ctx :=
 
 /-- an in-place buffer (no out-buffer: what a reverse-chaining lookup runs on): 5, mark, 1, mark, 3 with the cursor on
     glyph 1 (index 2); IgnoreMarks; PRODUCE_UNSAFE_TO_CONCAT requested -/
-def revCtx : Ctx :=
+def spanRevCtx : Ctx :=
   { buf := { info := [{ gid := 5, mask := 1, cluster := 0, var1 := 2 }, { gid := 10, mask := 1, cluster := 1, var1 := 8 },
                       { gid := 1, mask := 1, cluster := 2, var1 := 2 }, { gid := 10, mask := 1, cluster := 3, var1 := 8 },
                       { gid := 3, mask := 1, cluster := 4, var1 := 2 }],
